@@ -9,14 +9,48 @@ PL = {"lds": "PLds", "rds": "PRds", "cds": "PCds", "eds": "PEds", "nds": "PNds"}
 
 
 # ---- small stamped resources ----
-def listener(name, stamp, port=None, tokens=None, inline=False):
+def hcm(stamp, tokens=None, inline=False, typed_struct=False, router_first=False):
     filters = []
+    if router_first:
+        filters.append(C("HFUnknownUrl"))
     if tokens is not None:
-        filters.append(C("HFRateLimit", Some(P(100, Some(tokens)))))
+        if typed_struct:
+            filters.append(C("HFTypedStruct", Some(C("TBStruct", Some(C("TVNum", tokens * 3 + 100)), Some(C("TVNum", tokens))))))
+        else:
+            filters.append(C("HFRateLimit", Some(P(tokens * 3 + 100, Some(tokens)))))
     filters.append(C("HFUnknownUrl"))
     spec = C("RSInline", route_config("inl-%d" % stamp, stamp)) if inline else C("RSRds", "rc-%d" % stamp)
-    return C("Build_listener_pb", name, L([C("Build_fchain_pb", None if port is None else Some(port),
-                                            L([C("NFHcm", C("Build_hcm_pb", L(filters), spec))]))]), None)
+    return C("NFHcm", C("Build_hcm_pb", L(filters), spec))
+
+
+def listener(name, stamp, port=None, tokens=None, inline=False, chains=None):
+    """chains: optional list of (port|None, tokens|None, typed_struct, router_first) for a multi-chain (inbound) listener"""
+    if chains is None:
+        chains = [(port, tokens, False, False)]
+    fcs = [C("Build_fchain_pb", None if p is None else Some(p), L([hcm(stamp + i, t, inline and i == 0, ts, rf)]))
+           for i, (p, t, ts, rf) in enumerate(chains)]
+    return C("Build_listener_pb", name, L(fcs), None)
+
+
+def inbound_chains(r):
+    """filter chains of an inbound listener: per-port buckets (zero and non-zero), a port-less chain, in any order"""
+    chains = []
+    for p in r.sample([80, 8888, 9090], r.choice([0, 1, 2, 3])):
+        chains.append((p, r.choice([None, 0, 0, 7, 100]), r.random() < 0.4, r.random() < 0.5))
+    if r.random() < 0.7:
+        chains.append((None, r.choice([None, 0, 50, 9]), r.random() < 0.4, r.random() < 0.5))
+    r.shuffle(chains)
+    return chains or [(None, None, False, False)]
+
+
+def retry_policy(r):
+    hs = []
+    if r.random() < 0.5:
+        hs.append(C("Build_header_pb", "kitexRetryMethods", C("HSString", C("SMExact", r.choice(["Echo", "Echo,Ping", "Ping"])))))
+    if r.random() < 0.5:
+        hs.append(C("Build_header_pb", "kitexRetryErrorRate", C("HSString", C("SMExact", r.choice(["0.1", "0.25", "0.3", "0.5", "abc"])))))
+    return Some(C("Build_retry_pb", "5xx", Some(r.choice([0, 1, 2, 3, 5])), r.choice([None, Some(Z(r.choice([10, 100, 1500, 250]) * MS))]), None, L(hs),
+                  r.choice([None, Some(C("Build_backoff_pb", Some(Z(10 * MS)), Some(Z(r.choice([10, 500]) * MS))))])))
 
 
 def route_config(name, stamp, clusters=None, retry=None):
@@ -112,11 +146,14 @@ class SysGen:
         for n in names:
             st = self.next_stamp()
             if rt == "lds":
-                res = listener(n, st, port=r.choice([None, 80, 8888]), tokens=r.choice([None, 0, 7, 100]), inline=r.random() < 0.2)
+                if n == "virtualInbound":
+                    res = listener(n, st, chains=inbound_chains(r))
+                    self.stamp += 4
+                else:
+                    res = listener(n, st, port=r.choice([None, 80, 8888]), tokens=r.choice([None, 0, 7, 100]), inline=r.random() < 0.2)
             elif rt == "rds":
                 res = route_config(n, st, clusters=["cl-%d" % st] + (["cl-shared"] if r.random() < 0.3 else []),
-                                   retry=None if r.random() < 0.5 else Some(C("Build_retry_pb", "5xx", Some(r.choice([1, 2, 3])), Some(Z(r.choice([10, 100]) * MS)), None, L([]),
-                                                                                r.choice([None, Some(C("Build_backoff_pb", Some(Z(10 * MS)), Some(Z(r.choice([10, 500]) * MS))))]))))
+                                   retry=None if r.random() < 0.4 else retry_policy(r))
             elif rt == "cds":
                 res = cluster(n, st, eds=r.random() < 0.7, outlier=r.choice([None, (10, 5), (0, 5), (50, 0), (100, 100)]),
                               inline=None if r.random() < 0.75 else endpoints(n, st, nloc=r.choice([0, 1, 2]), nep=r.choice([0, 1, 2])))
@@ -146,7 +183,8 @@ class SysGen:
             self.version += 1
             st = self.next_stamp()
             case["init_lds"] = {"op": "resp", "rt": "lds", "version": "v%d" % self.version, "nonce": "n%d" % self.version,
-                                "resources": [C("RGood", listener("virtualInbound", st, port=r.choice([None, 8888]), tokens=r.choice([None, 9])))] if r.random() < 0.9 else []}
+                                "resources": [C("RGood", listener("virtualInbound", st, chains=inbound_chains(r)))] if r.random() < 0.9 else []}
+            self.stamp += 4
         types = ["lds", "rds", "cds", "eds"] + (["nds"] if istio else [])
         dead = False
         for i in range(n_ops):
